@@ -298,6 +298,7 @@ class Expect:
         self.tag = None         # site tag used in the violation key instead of the API name
         self.alt_kv = {}        # {key: (value, tag)}: value the *known-deviating* behaviour would give
         self.range_kv = {}      # {key: (lo, hi)} inclusive integer bounds
+        self.alt_err = None     # (value, tag): error code the known-deviating behaviour would return
 
     def check(self, ev, res, rank):
         out = []
@@ -305,7 +306,9 @@ class Expect:
         if self.err is not None:
             got = ev.geti("err")
             ok = (got in self.err) if isinstance(self.err, (set, frozenset, list, tuple)) else (got == self.err)
-            if not ok:
+            if not ok and self.alt_err is not None and got == self.alt_err[0]:
+                out.append(Violation(self.alt_err[1], "%s at line %d rank %d returned %s, property says %s (%s)" % (api, ev.line, rank, got, self.err, self.what), res))
+            elif not ok:
                 out.append(Violation("err|%s|got=%s|want=%s" % (api, got, self.err if not isinstance(self.err, (set, frozenset)) else sorted(self.err)),
                                      "%s at line %d rank %d returned %s, model says %s (%s)" % (api, ev.line, rank, got, self.err, self.what), res))
         for k, want in self.kv.items():
